@@ -145,6 +145,8 @@ package file
 //@ at call (io.Seeker).Seek#1 assert fallback-measures-to-the-end: callee_offset == 0 && callee_whence == 2
 //@ ensures err == nil ==> result0 == declSize(s, position)
 //@ ensures result1 != nil ==> fresh(result1)
+//@ ensures the-reader-handed-back-is-the-childs-own: result1 != nil ==> isFileReader(result1)
+//@ at return assert the-reader-handed-back-is-the-childs-own: result1 != nil ==> isFileReader(result1)
 //@ ensures forall it Ref :: itpos(it) == old(itpos(it)) && itlen(it) == old(itlen(it))
 //@ ensures no-reader-no-request: result1 == nil ==> loads == old(loads)
 //@ ensures declared-sizes-need-no-reader: sizesDeclared(s) ==> result1 == nil
@@ -159,8 +161,16 @@ package file
 //@ domain links-is-a-list: isList(lookupStr(s.shardNodeFile.substrate, "Links"))
 //@ loop 0 invariant pos-algebra: 0 <= itpos(lnkIter) && itpos(lnkIter) <= itlen(lnkIter) && itlen(lnkIter) == nkids(s.shardNodeFile) && at == startOf(s.shardNodeFile, itpos(lnkIter))
 //@ inst pos-algebra: f: s.shardNodeFile
+//@ inst pos-algebra: it: lnkIter
 //@ inst pos-algebra: i: itpos(lnkIter) - 1
 //@ inst pos-algebra: i: itpos(lnkIter)
+//@ loop 0 invariant one-reader-object-per-child: forall ra int :: forall rb int :: 0 <= ra && ra < rb && rb < len(readers) ==> readers[ra] != readers[rb]
+//@ inst one-reader-object-per-child: rk: ra
+//@ inst one-reader-object-per-child: rk: rb
+//@ inst one-reader-object-per-child: ra: ra
+//@ inst one-reader-object-per-child: rb: rb
+//@ loop 0 invariant children-are-read-through-their-own-readers: forall rk int :: 0 <= rk && rk < len(readers) ==> isFileReader(readers[rk]) && live(readers[rk]) && readers[rk] != nil
+//@ inst children-are-read-through-their-own-readers: rk: rk
 //@ loop 0 invariant first-reader: (len(readers) == 0 ==> s.offset >= at) && (len(readers) > 0 ==> s.offset <= at)
 //@ loop 0 invariant offset-unchanged: s.offset == old(s.offset) && s.shardNodeFile == old(s.shardNodeFile)
 //@ at call (io.Seeker).Seek#1 assert fast-forward-inside-first-child: len(readers) == 0 && callee_whence == 0 && callee_offset == s.offset - at && 0 < callee_offset && callee_offset < childSize
@@ -173,7 +183,7 @@ package file
 
 // ---------------------------------------------------------------------------------------------
 // C05: constructing file nodes and readers, and seeking, request no block from storage.
-//@ props C05
+//@ props C05 C20
 //@ func file.newDeferredFileNode
 //@ ensures result != nil && fresh(result)
 //@ ensures no-load: loads == old(loads)
@@ -181,6 +191,7 @@ package file
 
 //@ func (*file.deferred).AsLargeBytes
 //@ ensures err == nil && result != nil && fresh(result)
+//@ ensures a-lazily-resolved-reader: typeis(result, "*file.deferredReader")
 //@ ensures no-load: loads == old(loads)
 //@ assigns nothing
 
@@ -211,6 +222,7 @@ package file
 //@ ensures position-advances-by-the-count: s.offset == old(s.offset) + result && 0 <= result && result <= len(p)
 //@ ensures load-failure-is-returned: err == nil ==> loadFailed == old(loadFailed)
 //@ ensures make-reader-error-is-returned: old(s.rdr) == nil && s.rdr == nil ==> err != nil && result == 0
+//@ ensures end-of-file-comes-from-the-children: err == io.EOF && s.rdr != nil ==> drained(s.rdr)
 
 // Behavioural subtyping: these node types are maps / byte strings, never lists, so they answer
 // Kind() with a non-list kind and have no list iterator (the datamodel.Node interface contract
